@@ -7,7 +7,11 @@ timetag decoded by vf/osc.py and int((L + t) * 2**32) + offset, where t is
 `clock.seconds` read inside the routine right before the send and offset is
 recomputed from main._init_time.  Physical time is used only (a) for sends
 made outside routines, as the closed interval [call, return], and (b) as
-evidence that jitter was present.
+evidence that jitter was present, and (c) for routines on AppClock, whose
+scheduled time is by design (physical present of the scheduling call + delta):
+the independent expectation there is the interval between two readings of
+main.elapsed_time() around that call (see run_round, 'routines on AppClock
+with an independent expectation').
 """
 
 import itertools
@@ -22,7 +26,7 @@ TWO32 = 2 ** 32
 
 def run_rt(spec, acc):
     from sc3.base.main import main
-    from sc3.base.netaddr import NetAddr
+    from sc3.base.netaddr import NetAddr, BundleNetAddr
     from sc3.base.clock import SystemClock, TempoClock, AppClock
     from sc3.base.stream import Routine
     from sc3.base.responders import OscFunc
@@ -106,13 +110,32 @@ def run_rt(spec, acc):
             with srv.bind():
                 for m in lst[1:]:
                     srv.addr.send_msg(*m)
+        elif kind == 'clump/clumped':
+            addr.send_clumped_bundles(lst[0], *lst[1:])
+        elif kind == 'clump/bind':
+            srv.latency = lst[0]
+            with srv.bind():
+                for m in lst[1:]:
+                    srv.addr.send_msg(*m)
+        elif kind == 'clump/bind-addr':
+            with BundleNetAddr(addr) as b:
+                for m in lst[1:]:
+                    b.send_msg(*m)
         else:
             addr.send_bundle(lst[0], *lst[1:])
 
     def gen(rng, sid, **kw):
         """G.gen_send, or (a quarter of the sends) a server.bind() block:
-        ('bind', [server latency, msg, ...]) - judged as that bundle."""
-        if rng.random() >= 0.25:
+        ('bind', [server latency, msg, ...]) - judged as that bundle, or
+        (2%) a set of messages around / above the size of one datagram sent
+        through the clumping paths: ('clump/<path>', [latency, msg, ...]) -
+        judged by check_clump_send."""
+        r = rng.random()
+        if r < 0.02:
+            path, lst, _ = G.gen_clump_send(
+                rng, sid, rng.choice(['small', 'straddle', 'big']))
+            return ('clump/' + path, lst)
+        if r >= 0.27:
             return G.gen_send(rng, sid, **kw)
         msgs = []
         for n in range(rng.randint(1, 3)):
@@ -208,12 +231,90 @@ def run_rt(spec, acc):
         return dec
 
     stamped_imm = set()
+    abounds = {}        # sid -> (lo, hi, 'first-step' | 'later-step')
 
     def Mttf_unknown(L):
         return 1 if (L is None or L < 0) else None
 
+    def check_clump_send(i, kind, pristine, cap, exc, ctx, t, p0, p1):
+        """A set of messages sent through send_clumped_bundles / a bind()
+        block: 1..n datagrams, every message exactly once and in order; one
+        datagram at exactly (send instant + latency) when the set fits, else
+        non-decreasing timetags within [instant + latency, + (n + 1) ns]
+        ('one nanosecond later each').  Send instant: the routine's logical
+        time t, or [p0, p1] outside routines."""
+        path = kind.split('/')[1]
+        who = 'main-thread' if t is None else 'routine'
+        L = pristine[0]
+        size = G.bundle_size(pristine[1:])
+        w = {'case': i, 'path': path, 'context': ctx, 'latency': L,
+             'logical_time': t, 'call_time': p0, 'return_time': p1,
+             'elements': len(pristine) - 1, 'encoded_size': size,
+             'datagrams': len(cap)}
+        if exc is not None:
+            acc.violation(f'C07/rt/clumped-send/raises/{path}/{exc_key(exc)}',
+                          dict(w, exception=repr(exc)[:200]))
+            return
+        want, got, tags = [], [], []
+
+        def flat(b, out, dec):
+            for e in (b.elements if dec else b[1:]):
+                if dec:
+                    if isinstance(e, osc.Msg):
+                        out.append((e.addr, e.args[0], e.args[1]))
+                    else:
+                        flat(e, out, True)
+                elif isinstance(e[0], str):
+                    out.append(tuple(e[:3]))
+                else:
+                    flat(e, out, False)
+        flat(pristine, want, False)
+        try:
+            for raw in cap:
+                d = osc.decode(raw)
+                if not isinstance(d, osc.Bundle):
+                    raise osc.OscError('datagram is not a bundle')
+                if len(raw) > G.MAX_DGRAM:
+                    raise osc.OscError('datagram larger than 65504 bytes')
+                tags.append(d.timetag)
+                flat(d, got, True)
+        except Exception as e:
+            acc.violation('C07/rt/clumped-send/nonconformant-datagram',
+                          dict(w, error=str(e)[:200]))
+            return
+        if got != want:
+            acc.violation('C07/rt/clumped-send/messages-not-sent-exactly-once-'
+                          f'in-order/{path}', dict(w, sent=len(got),
+                                                   wanted=len(want)))
+            return
+        n = len(cap)
+        fits = size <= G.MAX_DGRAM
+        acc.count(f'rt_clump_sends_checked/{who}')
+        acc.count('rt_clump_sends_checked/'
+                  + ('one-datagram' if fits else 'oversized'))
+        if L is None or L < 0:
+            acc.count('rt_immediately_compared', n)
+            if any(x != 1 for x in tags):
+                acc.violation('C07/rt/latency-none-or-negative-not-immediately',
+                              dict(w, timetags=tags[:6]))
+            return
+        if t is not None:
+            lo = int((L + t) * TWO32) + off
+            hi = lo if fits else int((L + t + (n + 1) * 1e-9) * TWO32) + off + 1
+        else:
+            lo = int((L + p0) * TWO32) + off
+            hi = int((L + p1 + (0 if fits else (n + 1) * 1e-9)) * TWO32) + off + 1
+        acc.count('rt_clump_timetags_compared', n)
+        if (fits and n != 1) or not all(lo <= x <= hi for x in tags) or \
+                any(a > b for a, b in zip(tags, tags[1:])):
+            acc.violation(
+                f'C07/rt/clumped-send/timetag-differs/{who}/'
+                + ('one-datagram' if fits else 'oversized'),
+                dict(w, expected_timetag_between=[lo, hi], timetags=tags[:6],
+                     seconds_off=[(x - lo) / TWO32 for x in tags[:6]]))
+
     def check_routine_send(i, rec, sends):
-        sid, cname, t, p0, p1, cap, exc, t_ind = rec
+        sid, cname, t, p0, p1, cap, exc, t_ind, _ = rec
         kind, pristine = sends[sid]
         acc.count('rt_routine_sends')
         acc.count(f'rt_routine_sends/{cname}')
@@ -221,6 +322,12 @@ def run_rt(spec, acc):
         acc.maxi('max_rt_lateness_us', int(late * 1e6))
         if late > 1e-3:
             acc.count('rt_sends_late_over_1ms')
+        if kind.startswith('clump/'):
+            check_clump_send(i, kind, pristine, cap, exc,
+                             f'routine on {cname}', t, p0, p1)
+            acc.case(h64((cname, kind, G.bundle_size(pristine[1:]),
+                          pristine[0])), nontrivial=late > 1e-4)
+            return
         dec = content_check(i, sid, kind, pristine, cap, exc,
                             f'routine on {cname}')
         nb, bb = G.has_nested(kind, pristine)
@@ -285,6 +392,42 @@ def run_rt(spec, acc):
                          'expected_timetag': exp, 'decoded_timetag': got,
                          'difference_seconds': (got - exp) / TWO32})
                     break
+        ab = abounds.get(sid)
+        if ab is not None:
+            # AppClock keeps no exact logical time (every (re)scheduling is
+            # relative to the physical present of the call), so the
+            # independent expectation is an interval: the routine's wake-up
+            # time lies in [present before + delta, present after + delta] of
+            # the call that scheduled it.  float addition and int() are
+            # monotone, so the bounds are exact
+            lo_t, hi_t, step = ab
+            for where, L, got in tt_walk(dec, pristine, kind):
+                if L is None or L < 0:
+                    continue
+                lo = int((L + lo_t) * TWO32) + off
+                hi = int((L + hi_t) * TWO32) + off
+                acc.count('rt_independent_timetags_compared')
+                acc.count('rt_independent_timetags_compared/AppClock')
+                acc.count(f'rt_independent_timetags_compared/AppClock/{step}')
+                if hi_t - lo_t < 0.002:
+                    acc.count('rt_independent_timetags_compared/AppClock/'
+                              'expectation-narrower-than-2ms')
+                if lo <= got <= hi:
+                    continue
+                acc.violation(
+                    'C07/rt/timetag-differs-from-independent-expectation/'
+                    'AppClock',
+                    {'case': i, 'clock': cname, 'send': M.srepr(pristine),
+                     'where': where, 'latency': L, 'step': step,
+                     'expected_logical_time_between': [lo_t, hi_t],
+                     'logical_time_reported_by_clock': t,
+                     'physical_call_time': p0,
+                     'expected_timetag_between': [lo, hi],
+                     'decoded_timetag': got,
+                     'seconds_outside': ((lo - got) if got < lo
+                                         else (got - hi)) / TWO32,
+                     'side': 'earlier' if got < lo else 'later'})
+                break
         acc.case(h64((cname, M.srepr(pristine))),
                  nontrivial=ncomp > 0 and late > 1e-4)
         if acc.want_sample() and ncomp > 1 and late > 1e-3:
@@ -299,6 +442,10 @@ def run_rt(spec, acc):
         acc.count(f'rt_main_thread_sends/{mode}')
         if p1 < p0:
             acc.count('rt_host_clock_stepped_back')
+            return
+        if kind.startswith('clump/'):
+            check_clump_send(i, kind, pristine, cap, exc,
+                             f'main thread ({mode})', None, p0, p1)
             return
         dec = content_check(i, sid, kind, pristine, cap, exc,
                             f'main thread ({mode})')
@@ -404,6 +551,8 @@ def run_rt(spec, acc):
             if sid not in sends or sid not in info or sid in stamped_imm:
                 continue
             kind, pristine = sends[sid]
+            if kind.startswith('clump/'):
+                continue        # pieces are nanoseconds later: judged at _send
             t, p0 = info[sid]
             lat = dict(G.dispatched(kind, pristine)).get(k, 'absent')
             if lat == 'absent':
@@ -435,6 +584,8 @@ def run_rt(spec, acc):
         sids = itertools.count((i % 20000) * 100000)     # stays below 2**31
         sends = {}
         records, mrecords, bs_records = [], [], []
+        app_first = {}
+        abounds.clear()
         tclocks = [(TempoClock(tp), tp) for tp in
                    [rng.choice([0.5, 1, 2, 3.7, 8])
                     for _ in range(rng.randint(1, 2))]]
@@ -444,7 +595,7 @@ def run_rt(spec, acc):
         events = []
         stuck = 0
 
-        def make_body(cname, clock, steps, ev, texp=None):
+        def make_body(cname, clock, steps, ev, texp=None, aid=None):
             def body():
                 try:
                     for n, (sid, kind, lst, slp, delta) in enumerate(steps):
@@ -461,7 +612,9 @@ def run_rt(spec, acc):
                         p1 = main.elapsed_time()
                         tls.cap = None
                         records.append((sid, cname, t, p0, p1, cap, exc,
-                                        texp[n] if texp else None))
+                                        texp[n] if texp else None,
+                                        None if aid is None else
+                                        (aid, n, steps[n - 1][4] if n else None)))
                         yield delta
                 finally:
                     ev.set()
@@ -540,6 +693,59 @@ def run_rt(spec, acc):
                 else:
                     aclock.sched_abs(start * atempo, Routine(make_body(
                         kind_c, aclock, steps, ev, texp)))
+
+            # ---- routines on AppClock with an independent expectation.
+            # They are due at DIFFERENT times around T0 (distances 4-55 ms);
+            # the lockers and slow tasks below, or the scheduling thread
+            # itself keeping the library lock, make the AppClock thread
+            # late, so that ONE tick finds several of them expired: each
+            # must still be woken at its own time.  Scheduled from this
+            # thread (with and without the lock), or from a SystemClock
+            # routine; `play` is sched(0)
+            app_jobs = []
+            for aid in range(rng.randint(3, 6)):
+                steps = []
+                for n in range(rng.randint(1, 4)):
+                    sid = next(sids)
+                    kind, lst = gen(rng, sid, p_bundle=0.9)
+                    sends[sid] = (kind, G.clone(lst))
+                    steps.append((sid, kind, lst,
+                                  rng.choice([0, 0, 0, 0.001, 0.004]),
+                                  rng.choice([0, 0.003, 0.007, 0.02, 0.02])))
+                ev = threading.Event()
+                events.append(ev)
+                d0 = rng.choice([0, 0.04 + rng.choice(offs),
+                                 0.04 + rng.choice(offs), 0.05, 0.12])
+                app_jobs.append((aid, d0, Routine(make_body(
+                    'AppClock', AppClock, steps, ev, None, aid))))
+
+            def sched_app(jobs):
+                for aid, d0, r in jobs:
+                    c0 = main.elapsed_time()
+                    if d0 == 0:
+                        r.play(AppClock)
+                    else:
+                        AppClock.sched(d0, r)
+                    app_first[aid] = (c0, main.elapsed_time(), d0)
+            app_how = rng.choice(['unlocked', 'locked', 'locked-and-kept',
+                                  'from-a-SystemClock-routine'])
+            acc.count(f'rt_appclock_groups_scheduled/{app_how}')
+            if app_how == 'unlocked':
+                sched_app(app_jobs)
+            elif app_how == 'from-a-SystemClock-routine':
+                keep = rng.choice([0, 0.03, 0.07])
+
+                def sched_task():
+                    sched_app(app_jobs)
+                    time.sleep(keep)              # keeps the lock
+                    return
+                    yield
+                SystemClock.sched(0, Routine(sched_task))
+            else:
+                with main._main_lock:
+                    sched_app(app_jobs)
+                    if app_how == 'locked-and-kept':
+                        time.sleep(rng.choice([0.03, 0.07, 0.13]))
 
             # ---- bind() blocks with a sync inside (own Server each, because
             # the block is suspended at the sync while other routines run)
@@ -708,7 +914,43 @@ def run_rt(spec, acc):
         forward[0] = False
         # ---- offline checks ----
         info = {}
-        for rec in list(records):
+        records = list(records)
+        # AppClock: expected wake-up interval of every step.  First step:
+        # [c0 + d, c1 + d] around the sched call.  Later steps: the routine
+        # yielded d after its previous step returned (p1) and the library
+        # re-scheduled it at (present + d) before the AppClock thread
+        # started the next wake-up it made (of any routine recorded here)
+        app_recs = sorted((r for r in records if r[1] == 'AppClock'),
+                          key=lambda r: r[3])
+        by_step = {r[8][:2]: r for r in app_recs if r[8] is not None}
+        judged = []
+        for r in app_recs:
+            if r[8] is None:
+                continue
+            aid, n, dprev = r[8]
+            if n == 0:
+                if aid not in app_first:
+                    continue
+                c0, c1, d0 = app_first[aid]
+                lo_t, hi_t = c0 + d0, c1 + d0
+            else:
+                prev = by_step.get((aid, n - 1))
+                if prev is None:
+                    continue
+                nxt = min(x[3] for x in app_recs if x[3] > prev[4] or x is r)
+                lo_t, hi_t = prev[4] + dprev, nxt + dprev
+            if hi_t < lo_t:
+                acc.count('rt_host_clock_stepped_back')
+                continue
+            abounds[r[0]] = (lo_t, hi_t, 'first-step' if n == 0 else 'later-step')
+            judged.append((r, lo_t, hi_t))
+        # evidence that one late tick served wake-ups due at different times:
+        # consecutive AppClock wake-ups whose expectation intervals are
+        # disjoint and which were both already due when the first one began
+        for (a, alo, ahi), (b, blo, bhi) in zip(judged, judged[1:]):
+            if ahi < blo and bhi <= a[3]:
+                acc.count('rt_appclock_wakeups_batched_with_other_times')
+        for rec in records:
             info[rec[0]] = (rec[2], rec[3])
             check_routine_send(i, rec, sends)
         # evidence that ready tasks with different scheduled times were run
